@@ -780,7 +780,7 @@ class RemoteStreamFlowPath(
                 "".join(
                     [
                         "find -L ",
-                        f'"{self.__str__()}"',
+                        shlex.quote(self.__str__()),
                         " -type f -exec ls -ln {} \\+ | ",
                         "awk 'BEGIN {sum=0} {sum+=$5} END {print sum}'; ",
                     ]
